@@ -77,20 +77,20 @@ Proof.
 Qed.
 
 Lemma vtyp_num_inv : forall SC v, vtyp SC TNum v -> exists z, v = VNum z.
-Proof. intros SC [z|vs|fs|id|] H; cbn in H; try contradiction. eauto. Qed.
+Proof. intros SC [z|vs|fs|id| |tag pv] H; cbn in H; try contradiction. eauto. Qed.
 
 Lemma vtyp_tup_inv : forall SC ts v, vtyp SC (TTup ts) v -> exists vs, v = VTup vs /\ Forall2 (vtyp SC) ts vs.
 Proof.
-  intros SC ts [z|vs|fs|id|] H; try (cbn in H; contradiction). exists vs. split; auto. apply vtyp_tup. exact H.
+  intros SC ts [z|vs|fs|id| |tag pv] H; try (cbn in H; contradiction). exists vs. split; auto. apply vtyp_tup. exact H.
 Qed.
 
 Lemma vtyp_rec_inv : forall SC fts v, vtyp SC (TRec fts) v -> exists fvs, v = VRec fvs /\ Forall2 (fvtyp SC) fts fvs.
 Proof.
-  intros SC ts [z|vs|fs|id|] H; try (cbn in H; contradiction). exists fs. split; auto. apply vtyp_rec. exact H.
+  intros SC ts [z|vs|fs|id| |tag pv] H; try (cbn in H; contradiction). exists fs. split; auto. apply vtyp_rec. exact H.
 Qed.
 
 Lemma vtyp_fn_inv : forall SC ps r v, vtyp SC (TFn ps r) v -> exists id, v = VClo id /\ nth_error SC id = Some (TFn ps r).
-Proof. intros SC ps r [z|vs|fs|id|] H; cbn in H; try contradiction. eauto. Qed.
+Proof. intros SC ps r [z|vs|fs|id| |tag pv] H; cbn in H; try contradiction. eauto. Qed.
 
 Lemma vtyp_mono : forall SC SC', ext SC SC' -> forall t v, vtyp SC t v -> vtyp SC' t v.
 Proof.
